@@ -368,6 +368,25 @@ pub fn replay(script: &str, path: &[String]) -> i32 {
         let msgs: Vec<String> = w.traffic.drain(..).map(|(f, t, m)| format!("n{}->n{} {}", f + 1, t + 1, m)).collect();
         println!("{:4} {:28} {} {}", i, want, roles.join(" "), if msgs.is_empty() { String::new() } else { format!("| {}", msgs.join(" | ")) });
     }
+    if path.is_empty() {
+        // no recorded path: follow the default schedule, printing every step
+        let mut i = 0;
+        loop {
+            let en = w.enabled(true);
+            if en.is_empty() || i > 400 {
+                break;
+            }
+            let t = en[0].clone();
+            if let Err(e) = w.apply(&t) {
+                eprintln!("machinery: {}", e);
+                return 2;
+            }
+            let roles: Vec<String> = (0..c.nodes).map(|n| format!("n{}={}", n + 1, w.role(n))).collect();
+            let msgs: Vec<String> = w.traffic.drain(..).map(|(f, t, m)| format!("n{}->n{} {}", f + 1, t + 1, m)).collect();
+            println!("{:4} {:28} {} {}", i, format!("{:?}", t), roles.join(" "), if msgs.is_empty() { String::new() } else { format!("| {}", msgs.join(" | ")) });
+            i += 1;
+        }
+    }
     let mut en = w.enabled(true);
     println!("enabled afterwards: {:?}", en);
     if !en.is_empty() && path.len() >= 400 {
